@@ -5,6 +5,7 @@ go 1.24.0
 require (
 	github.com/jech/galene v0.0.0
 	github.com/pion/webrtc/v4 v4.2.17
+	golang.org/x/crypto v0.48.0
 )
 
 require (
@@ -30,7 +31,6 @@ require (
 	github.com/pion/transport/v4 v4.0.2 // indirect
 	github.com/pion/turn/v5 v5.0.12 // indirect
 	github.com/wlynxg/anet v0.0.5 // indirect
-	golang.org/x/crypto v0.48.0 // indirect
 	golang.org/x/net v0.50.0 // indirect
 	golang.org/x/sys v0.41.0 // indirect
 	golang.org/x/time v0.14.0 // indirect
